@@ -10,9 +10,8 @@ import Iota.Driver.Secp
 import Iota.Driver.Ed
 import Iota.Driver.Slip10
 import Iota.Driver.Mine
-import Iota.Driver.GenCode
 
 namespace Iota.Driver
-def allOps : List (String × Handler) :=
-  C14.ops ++ C10.ops ++ C15.ops ++ Bech32.ops ++ C19.ops ++ Curl.ops ++ Bip39.ops ++ Pow.ops ++ Secp.ops ++ Ed.ops ++ Slip10.ops ++ Mine.ops ++ GenCode.ops
+def modelOps : List (String × Handler) :=
+  C14.ops ++ C10.ops ++ C15.ops ++ Bech32.ops ++ C19.ops ++ Curl.ops ++ Bip39.ops ++ Pow.ops ++ Secp.ops ++ Ed.ops ++ Slip10.ops ++ Mine.ops
 end Iota.Driver
